@@ -11,7 +11,8 @@
 //!   B. nightly `-Zunpretty=expanded`, read with `syn` and abstracted to `Macro.generated`;
 //!   C. a runner crate built on stable: every enabled method is called with pairwise-distinct
 //!      arguments against a recording implementor (plus one wrong-variant probe).
-//! Results are cached per (hash of /repo/plugins + /repo/tarpc sources, script).
+//! Results are cached per (hash of the plugins + tarpc sources of the checkout under test, script).
+//! The checkout under test is /repo, or the one named by VERIF_REPO.
 use crate::exec::{coq_list, Case};
 use crate::rng::Rng;
 use std::collections::{BTreeMap, BTreeSet};
@@ -20,7 +21,23 @@ use std::path::{Path, PathBuf};
 use std::process::Command;
 
 const VERSION: &str = "c17-v3";
-const ROOT: &str = "/verif/.cache/c17";
+
+/// The checkout under test: /repo, or the one named by VERIF_REPO (same rule as lib/vcheck.py).
+fn repo() -> String {
+    let r = std::env::var("VERIF_REPO").unwrap_or_else(|_| "/repo".to_string());
+    std::fs::canonicalize(&r).map(|p| p.to_string_lossy().to_string()).unwrap_or(r)
+}
+
+/// scratch crates, target dirs and cached results; one tree per checkout under test
+fn root() -> String {
+    let r = repo();
+    if r == "/repo" {
+        "/verif/.cache/c17".to_string()
+    } else {
+        let tag: String = r.chars().map(|c| if c.is_ascii_alphanumeric() { c } else { '_' }).collect();
+        format!("/verif/.cache/alt-{}/c17", tag.trim_matches('_'))
+    }
+}
 
 // ------------------------------------------------------------------------------ definitions
 
@@ -1208,11 +1225,12 @@ fn fnv(seed: u64, data: &[u8]) -> u64 {
 /// hash of every source file the observations depend on
 fn tree_hash() -> String {
     let mut files = vec![];
-    for dir in ["/repo/plugins/src", "/repo/tarpc/src"] {
-        walk(Path::new(dir), &mut files);
+    let repo = repo();
+    for dir in ["plugins/src", "tarpc/src"] {
+        walk(Path::new(&format!("{repo}/{dir}")), &mut files);
     }
-    files.push(PathBuf::from("/repo/plugins/Cargo.toml"));
-    files.push(PathBuf::from("/repo/tarpc/Cargo.toml"));
+    files.push(PathBuf::from(format!("{repo}/plugins/Cargo.toml")));
+    files.push(PathBuf::from(format!("{repo}/tarpc/Cargo.toml")));
     files.sort();
     let mut acc = Vec::new();
     for f in files {
@@ -1239,7 +1257,7 @@ fn walk(dir: &Path, out: &mut Vec<PathBuf>) {
 
 fn cache_path(tree: &str, script: &str) -> PathBuf {
     let key = format!("{VERSION}\n{tree}\n{script}");
-    PathBuf::from(format!("{ROOT}/results/{:016x}{:016x}.tsv", fnv(3, key.as_bytes()), fnv(4, key.as_bytes())))
+    PathBuf::from(format!("{}/results/{:016x}{:016x}.tsv", root(), fnv(3, key.as_bytes()), fnv(4, key.as_bytes())))
 }
 
 const CRATE_ATTRS: &str = "#![allow(non_camel_case_types, non_snake_case, non_upper_case_globals, dead_code, unused, deprecated, unreachable_patterns, async_fn_in_trait)]\n";
@@ -1255,8 +1273,9 @@ fn write_if_changed(path: &Path, content: &str) {
 }
 
 fn manifest(name: &str, bin: bool, extra: &str) -> String {
+    let repo = repo();
     format!(
-        "[package]\nname = \"{name}\"\nversion = \"0.0.0\"\nedition = \"2021\"\npublish = false\n\n{}\n[workspace]\n\n[dependencies]\ntarpc = {{ path = \"/repo/tarpc\", features = [\"serde1\"] }}\n{extra}\n[profile.dev]\ndebug = 0\nopt-level = 0\nincremental = false\n\n[lints.rust]\nunexpected_cfgs = {{ level = \"allow\" }}\n",
+        "[package]\nname = \"{name}\"\nversion = \"0.0.0\"\nedition = \"2021\"\npublish = false\n\n{}\n[workspace]\n\n[dependencies]\ntarpc = {{ path = \"{repo}/tarpc\", features = [\"serde1\"] }}\n{extra}\n[profile.dev]\ndebug = 0\nopt-level = 0\nincremental = false\n\n[lints.rust]\nunexpected_cfgs = {{ level = \"allow\" }}\n",
         if bin { "" } else { "[lib]\npath = \"src/lib.rs\"\n" }
     )
 }
@@ -1286,7 +1305,7 @@ fn cargo(toolchain: Option<&str>, args: &[&str], dir: &Path, target: &str) -> (b
     }
     c.args(args)
         .current_dir(dir)
-        .env("CARGO_TARGET_DIR", format!("{ROOT}/{target}"))
+        .env("CARGO_TARGET_DIR", format!("{}/{target}", root()))
         .env("CARGO_NET_OFFLINE", "true")
         .env_remove("RUSTFLAGS")
         .env_remove("CARGO_ENCODED_RUSTFLAGS");
@@ -1333,7 +1352,7 @@ fn error_class(msg: &str) -> Option<u64> {
 /// Phase A: which definitions does stable rustc accept? Failing modules are removed and the
 /// rest is checked again, because errors of later compiler phases are hidden by earlier ones.
 fn phase_check(defs: &[(usize, &Def)]) -> BTreeMap<usize, Verdict> {
-    let dir = PathBuf::from(format!("{ROOT}/defs"));
+    let dir = PathBuf::from(format!("{}/defs", root()));
     prepare_crate(&dir, "c17-defs", false, "");
     for (k, d) in defs {
         write_if_changed(&dir.join(format!("src/d{k}.rs")), &def_source(d));
@@ -1405,7 +1424,7 @@ const LATE_CODES: &[&str] = &["E0415", "E0416", "E0124", "E0592", "E0004", "E020
 
 /// Phase B: expansions. Definitions whose only errors belong to late compiler phases still expand.
 fn phase_expand(defs: &[(usize, &Def)], verdicts: &BTreeMap<usize, Verdict>) -> BTreeMap<usize, Result<reader::Abs, String>> {
-    let dir = PathBuf::from(format!("{ROOT}/expand"));
+    let dir = PathBuf::from(format!("{}/expand", root()));
     prepare_crate(&dir, "c17-expand", false, "");
     let mut lib = String::from(CRATE_ATTRS);
     let mut any = false;
@@ -1617,7 +1636,7 @@ fn phase_run(defs: &[(usize, &Def)]) -> BTreeMap<usize, RunObs> {
     if defs.is_empty() {
         return res;
     }
-    let ws = PathBuf::from(format!("{ROOT}/runner"));
+    let ws = PathBuf::from(format!("{}/runner", root()));
     std::fs::create_dir_all(&ws).ok();
     // several member crates so that cargo compiles them in parallel
     let per = 24usize;
@@ -1635,10 +1654,11 @@ fn phase_run(defs: &[(usize, &Def)]) -> BTreeMap<usize, RunObs> {
                 }
             }
         }
+        let repo = repo();
         write_if_changed(
             &dir.join("Cargo.toml"),
             &format!(
-                "[package]\nname = \"{name}\"\nversion = \"0.0.0\"\nedition = \"2021\"\npublish = false\n\n[dependencies]\ntarpc = {{ path = \"/repo/tarpc\", features = [\"serde1\"] }}\nfutures = \"0.3\"\n\n[lints.rust]\nunexpected_cfgs = {{ level = \"allow\" }}\n"
+                "[package]\nname = \"{name}\"\nversion = \"0.0.0\"\nedition = \"2021\"\npublish = false\n\n[dependencies]\ntarpc = {{ path = \"{repo}/tarpc\", features = [\"serde1\"] }}\nfutures = \"0.3\"\n\n[lints.rust]\nunexpected_cfgs = {{ level = \"allow\" }}\n"
             ),
         );
         let mut main = String::from(CRATE_ATTRS);
@@ -1680,7 +1700,7 @@ fn phase_run(defs: &[(usize, &Def)]) -> BTreeMap<usize, RunObs> {
         die(&format!("the runner crates do not build (definitions that passed cargo check):\n{stderr}\n{stdout}"));
     }
     for m in &members {
-        let out = Command::new(format!("{ROOT}/target-stable/debug/{m}"))
+        let out = Command::new(format!("{}/target-stable/debug/{m}", root()))
             .output()
             .unwrap_or_else(|e| die(&format!("cannot run {m}: {e}")));
         if !out.status.success() {
@@ -1796,7 +1816,7 @@ fn tags_of(d: &Def, v: &Verdict, compiled: bool) -> Vec<String> {
 /// Runs the real macro on every script; one case per script, in order.
 pub fn run_scripts(lines: &[String]) -> Vec<Case> {
     let tree = tree_hash();
-    std::fs::create_dir_all(format!("{ROOT}/results")).ok();
+    std::fs::create_dir_all(format!("{}/results", root())).ok();
     let defs: Vec<Def> = lines.iter().map(|l| parse(l).unwrap_or_else(|| die(&format!("bad script: {l}")))).collect();
     let canon: Vec<String> = defs.iter().map(show).collect();
     let mut cached: BTreeMap<String, String> = BTreeMap::new();
